@@ -1597,6 +1597,9 @@ let rec resolve0 fuel fr d e =
        option_map (fun r -> CAttr (r, a)) (resolve0 f fr d e1)
      | ECall (g, args) ->
        (match g with
+        | EName fn ->
+          option_map (fun x -> CCall ((CFree fn), x))
+            (map_opt (resolve0 f fr d) args)
         | ELam (ps, body) ->
           resolve0 f ((define_all ps (map (fun x -> BAst x) args) []) :: fr)
             d body
